@@ -78,6 +78,13 @@ impl BankWorld {
                 }
             }
             "burn" => app.execute(from, BankMsg::Burn { amount: coins }.into()).is_ok(),
+            "init" => {
+                let mut ok = false;
+                app.init_modules(|router, _, storage| {
+                    ok = router.bank.init_balance(storage, &to, coins.clone()).is_ok();
+                });
+                ok
+            }
             "setmeta" => {
                 // (metadata is kept directly in the storage handed to set_denom_metadata, and the queries read it from
                 // the chain's root storage: the root storage it is)
@@ -326,7 +333,7 @@ pub fn drive(n: usize, len: usize, out: &str) -> ! {
         let mut minted: u64 = 0;
         for _ in 0..len {
             let c = rng.gen_range(0..100);
-            let a = if c < 25 { "mint" } else if c < 75 { "send" } else if c < 93 { "burn" } else { "setmeta" };
+            let a = if c < 25 { "mint" } else if c < 72 { "send" } else if c < 88 { "burn" } else if c < 93 { "init" } else { "setmeta" };
             if a == "setmeta" {
                 let mtok = ["m1", "m2", "m3"][rng.gen_range(0..3)];
                 let op = json!({"a": a, "from": denoms[rng.gen_range(0..3)], "to": mtok, "coins": []});
@@ -358,7 +365,7 @@ pub fn drive(n: usize, len: usize, out: &str) -> ! {
                     json!([denoms[rng.gen_range(0..3)], amt])
                 })
                 .collect();
-            if a == "mint" {
+            if a == "mint" || a == "init" {
                 let s: u64 = coins.iter().map(|c| c[1].as_u64().unwrap()).sum();
                 if minted + s > (1 << 22) {
                     continue;
